@@ -54,8 +54,9 @@ class _AddressList(Writeable):
                 # unless the header holds exactly one address
                 addresses.extend(header.addresses)
             if addresses:
-                return List([self._parse(address)
-                             for address in addresses])
+                # env-from = "(" 1*address ")", no space between addresses
+                return List([_Concatenated([self._parse(address)
+                                            for address in addresses])])
         return Nil()
 
     def write(self, writer: WriteStream) -> None:
